@@ -161,6 +161,19 @@ impl Rig {
         ok
     }
 
+    /// process a burst of `n` datagrams that are already queued on the server socket. One call of
+    /// process_events handles at most 16 batches (MAX_BATCHES_PER_CALL in server.rs) and returns
+    /// without blocking while a backlog remains, so call it often enough to drain the burst.
+    pub fn process_burst(&mut self, n: usize) -> bool {
+        let per_call = 16 * (self.cfg.batch.max(1) as usize);
+        let calls = n / per_call + 1;
+        let mut ok = true;
+        for _ in 0..calls {
+            ok &= self.process();
+        }
+        ok
+    }
+
     /// read every client socket dry; returns (client, datagram) in per-client arrival order
     pub fn drain(&self) -> Vec<(usize, Vec<u8>)> {
         let mut out = vec![];
